@@ -10,6 +10,12 @@ def sh(cmd, cwd=None, timeout=3600):
     return p.returncode, p.stdout
 def main():
     wt, mdir, sid, prop, checks = sys.argv[1:6]
+    lane = None
+    for a in sys.argv:
+        if a.startswith("--lane="):
+            lane = a.split("=")[1]
+    REPO = "/tmp/lane_%s/repo" % lane if lane else "/repo"
+    VERIF = "/tmp/lane_%s/verif" % lane if lane else "/verif"
     skip = "--skip-validate" in sys.argv
     only_validate = "--validate-only" in sys.argv
     src = os.path.join(wt, "_mutation", mdir)
@@ -68,14 +74,14 @@ def main():
     if os.path.exists(os.path.join(dst, "meta.json")):
         meta["results"] = json.load(open(os.path.join(dst, "meta.json"))).get("results", {})
     # run the checks on /repo with the change applied
-    rc, out = sh("git -C /repo status --porcelain")
-    assert out.strip() == "", "/repo is dirty: " + out
-    rc, out = sh("git -C /repo apply %s" % os.path.join(dst, "patch.diff"))
+    rc, out = sh("git -C %s status --porcelain" % REPO)
+    assert out.strip() == "", "%s is dirty: " % REPO + out
+    rc, out = sh("git -C %s apply %s" % (REPO, os.path.join(dst, "patch.diff")))
     assert rc == 0, out
     try:
         for c in checks.split(","):
             t0 = time.time()
-            rc, out = sh("./check %s --tier quick" % c, cwd="/verif", timeout=3000)
+            rc, out = sh("./check %s --tier quick" % c, cwd=VERIF, timeout=3000)
             viol = [l for l in out.splitlines() if l.startswith("VIOLATION")]
             fi = [l for l in out.splitlines() if "failing input" in l][:3]
             meta["results"][c] = dict(exit=rc, violations=len(viol), detected=(rc == 1 and len(viol) > 0),
@@ -84,8 +90,8 @@ def main():
             if rc not in (0, 1):
                 print(out[-1500:])
     finally:
-        sh("git -C /repo checkout -- .")
-        rc, out = sh("git -C /repo status --porcelain")
+        sh("git -C %s checkout -- ." % REPO)
+        rc, out = sh("git -C %s status --porcelain" % REPO)
         assert out.strip() == "", out
     json.dump(meta, open(os.path.join(dst, "meta.json"), "w"), indent=1)
 if __name__ == "__main__":
